@@ -215,7 +215,7 @@ class Obs:
             ci = len(self.containers)
             cont_by_id[id(c)] = ci
             self.containers.append({"obj": c, "handles": [], "envelopes": [], "state_objs": [], "blocks": [],
-                                    "ps_container_ok": [], "uid": c.composite_uid})
+                                    "ps_container_ok": [], "ps_ids": [], "uid": c.composite_uid})
             return ci
 
         for h in w.handles():
@@ -281,6 +281,7 @@ class Obs:
                         self.place[m].append(len(self.blocks))
                 cd["blocks"].append(len(self.blocks))
                 cd["ps_container_ok"].append(ps.container is c)
+                cd["ps_ids"].append(id(ps))
                 if ps.container is not c:
                     reg_container(ps.container)
                 self.blocks.append(b)
